@@ -13,7 +13,7 @@ namespace Driver
 def srcOf (ba : ByteArray) : Src := { size := ba.size, get := fun i => ba.get! i }
 
 def fmtLeafVal (k : Bytes) : LeafVal → String
-  | .kv v => s!"K:{hex k}:{hex v}"
+  | .kv v => s!"K:{hex k}:{vtok v}"
   | .bkt _ _ => s!"B:{hex k}"
 
 partial def dumpView (b : BucketView) (root : Bool) : String :=
@@ -45,6 +45,8 @@ structure FileReport where
   free : Nat := 0
   reach : Nat := 0
   fileSize : Nat := 0
+  reachPages : List Nat := []
+  freePages : List Nat := []
 
 /-- decode errors met while unfolding are turned into `notATree`; to report them precisely we probe
 the page store for the first decode error among pages reached -/
@@ -61,7 +63,8 @@ def checkBytes (L : Layout) (order : List MetaField) (ba : ByteArray) (pagesize 
     match checkFile mt pg ba.size pagesize with
     | .ok sum =>
       { ok := true, msg := "ok", dump := dumpView sum.root true, numPages := mt.numPages, txId := mt.txId,
-        free := sum.free.length, reach := sum.reach.length, fileSize := ba.size }
+        free := sum.free.length, reach := sum.reach.length, fileSize := ba.size,
+        reachPages := sum.reach ++ sum.freelistRun, freePages := sum.free }
     | .error e =>
       let detail := match e with
         | .notATree p => match decodePage L s pagesize p with
